@@ -55,7 +55,7 @@ Fixpoint compile_expr (G : genv) (ce : cenv) (e : expr) (p : pool) {struct e} : 
   match e with
   | ENum z => Some ([mk OP_PUSH_I64 [i64 z]], p)
   | EBool b => Some ([mk OP_PUSH_BOOL [if b then 1 else 0]], p)
-  | EStr s => let '(i, p') := pool_add s p in Some ([mk OP_PUSH_STR [N.of_nat i]], p')
+  | EStr s => let '(i, p') := pool_add (unescape s) p in Some ([mk OP_PUSH_STR [N.of_nat i]], p')
   | EVar x =>
       match cfind x ce with
       | Some s => Some ([mk OP_LOAD_LOCAL [N.of_nat s]], p)
